@@ -153,6 +153,17 @@ def _index_variants(name, tier):
     out.append(("renamed", ren))
     num = "".join(f"{c}{k + 1}" for k, c in enumerate(names))
     out.append(("numbered", num))
+    # shifted names: the target indices take the names the definitions use
+    # internally for their contracted indices (j, k, b, c, l, m, d, e ...)
+    O, V = "ijklmno", "abcdefg"
+    for sh in (1, 2, 3, 4):
+        try:
+            shifted = "".join(
+                (O[O.index(c) + sh] if c in O else V[V.index(c) + sh])
+                for c in names)
+        except IndexError:
+            continue
+        out.append((f"shift{sh}", shifted))
     # a repeated pair (first two same-space positions)
     for x, y in itertools.combinations(range(len(names)), 2):
         if gen.space_of(names[x]) == gen.space_of(names[y]):
@@ -173,7 +184,8 @@ def generate(tier):
             variants = _index_variants(name, tier)
             for vname, idx in variants:
                 if name in ("t1_3", "t2_3", "p0_3_ov", "t4_2", "t3_2") and \
-                        full and vname not in ("default", "renamed") and \
+                        full and vname not in ("default", "renamed",
+                                               "shift2") and \
                         tier == "quick":
                     continue
                 cases.append(("value", name, full, vname, idx))
